@@ -199,3 +199,34 @@ Proof.
     specialize (G 2 0 (T 2 P) eq_refl). discriminate.
   - split; vm_compute; reflexivity.
 Qed.
+
+(* ------------------------------------------------------------------ two answers of the analyzer that cannot disagree *)
+
+(** weak reversibility implies the coarse regularity: in a strongly connected class every complex is terminal and any two
+    complexes reach each other, so the class has exactly one terminal strongly connected component.  (CRNT: a weakly reversible
+    network is regular.)  The converse fails: A -> B is regular and not weakly reversible. *)
+Theorem weak_rev_regular arcs k : arcs_ok arcs k -> weakly_reversible arcs k = true -> regular arcs k = true.
+Proof.
+  intros OK W. pose proof (proj1 (weak_rev_arcs arcs k OK) W) as R. pose proof (proj1 (weak_rev_spec arcs k OK) W) as S.
+  apply (regular_spec arcs k OK). intros c Ic. split.
+  - destruct (linkage_spec arcs k OK) as (_ & _ & Q3 & _). destruct (Q3 c Ic) as [_ NE].
+    destruct c as [|y c']; [congruence|]. destruct (class_members arcs k OK (y :: c') Ic y (or_introl eq_refl)) as (i & _ & ->).
+    exists i. split; [left; reflexivity|]. intros w P. apply (return_paths_upath arcs R). apply upath_sym, dpath_upath. exact P.
+  - intros v w Iv Iw _ _. apply (S c Ic v w Iv Iw).
+Qed.
+
+Theorem net_weak_rev_regular net iso r :
+  let arcs := snd (complex_graph net iso) in
+  let k := length (fst (complex_graph net iso)) in
+  (weakly_rev (compute_summary net iso r) = true -> regular arcs k = true) /\
+  (check_deficiency_zero (compute_summary net iso r) = true -> regular arcs k = true).
+Proof.
+  intros arcs k. pose proof (complex_graph_arcs_ok net iso) as OK. fold arcs k in OK.
+  assert (A : weakly_rev (compute_summary net iso r) = true -> regular arcs k = true).
+  { rewrite compute_summary_eq. simpl. fold arcs k. apply weak_rev_regular. exact OK. }
+  split; [exact A|]. unfold check_deficiency_zero. rewrite andb_true_iff. intros [_ W]. apply A. exact W.
+Qed.
+
+Example ex_regular_not_weak_rev : regular [(0, 1)] 2 = true /\ weakly_reversible [(0, 1)] 2 = false /\
+  regular [(0, 1); (1, 0)] 2 = true /\ weakly_reversible [(0, 1); (1, 0)] 2 = true.
+Proof. repeat split; vm_compute; reflexivity. Qed.
